@@ -37,6 +37,16 @@ theorem memmove_s_C07 (dest dmax src slen : Nat) (st : St)
       Moved st st' dest src slen :=
   memmove_s_ok dest dmax src slen st hd hs hpos hle hmax hw hr
 
+/-- **memmove_s with object sizes known to the library** (`destbos`, `srcbos` arbitrary): when `dmax` is within the
+limit and the known dest object and `slen` within the known source object, the same exact `memmove`. -/
+theorem memmove_s_C07_bos (dest dmax src slen : Nat) (destbos srcbos : Bos) (st : St)
+    (hd : dest ≠ 0) (hs : src ≠ 0) (hpos : 0 < slen) (hle : slen ≤ dmax) (hmax : dmax ≤ RSIZE_MAX_MEM)
+    (hdb : memDmaxOk dmax destbos) (hsb : exceeds slen srcbos = false)
+    (hw : RW st dest dmax) (hr : RD st src slen) :
+    ∃ st', exec (memmove_s dest dmax src slen destbos srcbos) st = .ok (EOK, st') ∧
+      Moved st st' dest src slen :=
+  memmove_s_ok_bos dest dmax src slen destbos srcbos st hd hs hpos hle hmax hdb hsb hw hr
+
 /-- **memmove16_s** (`dmax` in bytes, `slen` in 16-bit elements), valid arguments, any overlap. -/
 theorem memmove16_s_C07 (dest dmax src slen : Nat) (st : St)
     (hd : dest ≠ 0) (hs : src ≠ 0) (hpos : 0 < slen) (hle : slen * 2 ≤ dmax) (hmax : dmax ≤ RSIZE_MAX_MEM)
